@@ -161,8 +161,8 @@ def classic_2mul(a: fp.Real, b: fp.Real):
     - the rounding mode is round-nearest.
     """
 
-    with fp.INTEGER:
-        p = core.max_p()
+    p = core.max_p()
+    with fp.REAL:
         s = fp.ceil(p / 2)
 
     ah, al = veltkamp_split(a, s)
